@@ -15,6 +15,7 @@ PID) of every EP0 response.
 import hashlib
 
 from dsim.kernel import Violations
+from models.usb2_wire import gen_idle_data
 from models import usb2
 from models.usb2 import UTMIHost
 from models.usb2_ctrl import Txn, StreamFeeder, StreamSink, setup_bytes, decode_setup, is_data
@@ -188,6 +189,7 @@ def gen(rng, tier, index):
         ops.extend(seq)
         if rng.random() < 0.3:
             ops.append(_other(rng))
+    cfg["idle_data"] = gen_idle_data(rng)
     return {"engine": ENGINE, "config": cfg, "ops": ops}
 
 
@@ -516,7 +518,7 @@ def run(scn):
             raise ValueError(kind)
         yield from h.idle(12)
 
-    host = UTMIHost(script, byte_period=cfg["byte_period"], pre=cfg["pre"], post=cfg["post"],
+    host = UTMIHost(script, idle_data=cfg.get("idle_data"), byte_period=cfg["byte_period"], pre=cfg["pre"], post=cfg["post"],
                     txready=(cfg["txready"] if cfg["txready"] == "always" else tuple(cfg["txready"])))
     feeder = StreamFeeder("in1_", seed=len(ops))
     sink = StreamSink("out2_")
